@@ -691,6 +691,75 @@ func runC14(c *Ctx) {
 	R.Rules["S.paired-maps"] = "the slot table and the timer record of a transfer are created and deleted together, under the same key, in every function (the re-request pass runs over the timer records: a record without a pending slot table asks again for a message that was already delivered)"
 	c.pairedMapsLemma("service", "packageParse", "subcontractingRecord", "timeoutRecord")
 	R.Require("S.paired-maps", 3, "")
+	// ---- idle time is judged after the packets of the current read were filed
+	{
+		R.Rules["S.pass-order"] = "within one pass over a read, the re-request builder runs after every packet of that read was filed: no call of completePack is reachable from the call of the re-request builder (a packet that arrives after more than 5 s of silence must count before the silence is judged - otherwise it is named again in a new 0x8003, or a transfer it has just completed is re-requested)"
+		cpk := c.P.Method("service", "packageParse", "completePack")
+		n := 0
+		if cpk != nil {
+			for _, fn := range c.RepoFuncs("service") {
+				var buildCalls, fileCalls []*ssa.Call
+				for _, b := range fn.Blocks {
+					for _, ins := range b.Instrs {
+						if call, isC := ins.(*ssa.Call); isC {
+							switch call.Call.StaticCallee() {
+							case sT.fn:
+								buildCalls = append(buildCalls, call)
+							case cpk:
+								fileCalls = append(fileCalls, call)
+							}
+						}
+					}
+				}
+				if len(buildCalls) == 0 || len(fileCalls) == 0 {
+					continue
+				}
+				n++
+				st, d := report.Discharged, ""
+				for _, bc := range buildCalls {
+					for _, fc := range fileCalls {
+						reach := false
+						if bc.Block() == fc.Block() {
+							for _, ins := range bc.Block().Instrs {
+								if ins == ssa.Instruction(bc) {
+									reach = true // the builder comes first in the block
+									break
+								}
+								if ins == ssa.Instruction(fc) {
+									break
+								}
+							}
+						}
+						seen := map[*ssa.BasicBlock]bool{}
+						var w func(x *ssa.BasicBlock)
+						w = func(x *ssa.BasicBlock) {
+							if seen[x] {
+								return
+							}
+							seen[x] = true
+							if x == fc.Block() {
+								reach = true
+							}
+							for _, su := range x.Succs {
+								w(su)
+							}
+						}
+						for _, su := range bc.Block().Succs {
+							w(su)
+						}
+						if reach {
+							st, d = report.Violated, fmt.Sprintf("the re-request builder is called at %s before the packets of the read are filed at %s: the idle time is judged on the state before this read, so a packet that has just arrived is asked for again", c.P.RelPos(bc.Pos()), c.P.RelPos(fc.Pos()))
+						}
+					}
+				}
+				R.Add("S.pass-order", shortFn(fn)+" / packets are filed before the idle time is judged", c.P.RelPos(fn.Pos()), st, d)
+			}
+		}
+		if n == 0 {
+			R.Add("S.pass-order", "service / packets are filed before the idle time is judged", "", report.Undecided, "no function calls both completePack and the re-request builder (anchor)")
+		}
+		R.Require("S.pass-order", 1, "")
+	}
 	// ---- the 0x8003 body itself: what the server encodes is what a terminal's parser reads, for every count up to 255
 	c.narrowArith(func(fn *ssa.Function) bool { return strings.Contains(c.P.RelPos(fn.Pos()), "p_0x8003.go") }, 2, true)
 	R.Require("S.narrow-arith", 2, "")
